@@ -17,10 +17,17 @@ import (
 )
 
 const (
-	repoDir  = "/repo"
-	verifDir = "/verif"
-	modPath  = "github.com/invopop/gobl"
+	repoDir = "/repo"
+	modPath = "github.com/invopop/gobl"
 )
+
+// verifDir is /verif unless VERIF_DIR points at a snapshot of it (background runs).
+var verifDir = func() string {
+	if d := os.Getenv("VERIF_DIR"); d != "" {
+		return d
+	}
+	return "/verif"
+}()
 
 type harnessFile struct {
 	rel     string // package dir relative to repo ("num", "." ...)
